@@ -198,8 +198,6 @@ def rand_value(rng, ikind, bnd):
     if ikind == "epoch":
         # seconds since 1970 read with -i %s: the value is held as one number, rounded by its own routine
         o = rng.randrange(cal.ORD_UNIX - 40000, cal.ORD_UNIX + 40000) if rng.random() < .8 else o
-        if o == cal.ORD_UNIX and s == 0:
-            s = 1           # epoch 0 is not accepted through %s (finding F4 of C11)
         return o, s
     if ikind.endswith("T"):
         return o, s
